@@ -220,6 +220,18 @@ def apply_op(ctx, world, op, hist, case):
     world.peer.take()
     if kind == 'export':
         objkind = op[2]
+        probe = {'serial': None}
+
+        def on_added(kind_, payload):
+            # an in-process peer reacts to the announcement at once: what is announced is there
+            if kind_ == 'write' and b'InterfacesAdded' in payload and probe['serial'] is None:
+                world.serial += 1
+                probe['serial'] = world.serial
+                world.peer.ep.feed(RM.build(RM.METHOD_CALL, world.serial, {'path': path, 'member': 'Ping',
+                                                                            'interface': 'org.verif.c16.A',
+                                                                            'sender': ':1.50'}))
+        if len(hist) % 2:
+            world.peer.ep.t.on_event = on_added
         try:
             obj = (ObjAB if objkind == 'AB' else ObjA)(path)
             world.conn.exportObject(obj)
@@ -227,6 +239,8 @@ def apply_op(ctx, world, op, hist, case):
             ctx.report('export-raised', 'constructing / exporting a %s object at %s raised %r' % (objkind, path, e),
                        {'history': hist, 'op': list(op)}, case)
             return False
+        finally:
+            world.peer.ep.t.on_event = None
         world.exported[path] = objkind
         world.objs[path] = obj
         world.names.pop(path, None)
@@ -241,7 +255,16 @@ def apply_op(ctx, world, op, hist, case):
         world.objs.pop(path, None)
         world.names.pop(path, None)
         world.counts.pop(path, None)
-    sigs = [m for m in world.peer.take() if m.mtype == RM.SIGNAL]
+    written = world.peer.take()
+    if kind == 'export' and probe['serial'] is not None:
+        rep = [m for m in written if m.fields.get('reply_serial') == probe['serial']]
+        ctx.count('announcement_probes')
+        if len(rep) != 1 or rep[0].mtype != RM.METHOD_RETURN or rep[0].body != ['pong from ' + path]:
+            ctx.report('announced-before-visible', 'a call to %s made the moment its InterfacesAdded signal was written was '
+                       'answered %r' % (path, [(m.mtype, m.fields.get('error_name'), m.body) for m in rep]),
+                       {'history': hist, 'op': list(op)}, case)
+            return False
+    sigs = [m for m in written if m.mtype == RM.SIGNAL]
     ctx.count('evaluations')
     ctx.count('steps')
     base = {'history': hist, 'op': list(op), 'signals': [(m.fields.get('member'), m.fields.get('path'), repr(m.body)[:200])
